@@ -227,6 +227,7 @@ impl LinkRelay<OutputHandle> {
     #[verifier::external_body]
     pub fn on_incoming_transfer(&mut self, transfer: Transfer, payload: Payload) -> (r: Result<Option<(DeliveryNumber, DeliveryTag)>, LinkRelayError>)
         ensures *final(self) == relay_after(*old(self), RelayCall::Transfer { transfer, payload }),
+            *old(self) is Receiver ==> r is Ok,      // [C13.drop.in-flight-transfer-discarded] of unit LINK: only a transfer addressed to a SENDING link is refused by the relay
     { unimplemented!() }
 }
 
@@ -738,6 +739,7 @@ impl Session {
         old(self).link_by_input_handle@.contains_key(InputHandle(transfer.handle.0))
             ==> Self::routed(old(self).link_by_input_handle@, final(self).link_by_input_handle@, InputHandle(transfer.handle.0),
                     RelayCall::Transfer { transfer, payload }),                         // [C11.route.transfer] the frame (performative and payload unchanged) reaches exactly the link attached under its handle
+        old(self).link_by_input_handle@.contains_key(InputHandle(transfer.handle.0)) && old(self).link_by_input_handle@[InputHandle(transfer.handle.0)] is Receiver ==> r is Ok,   // [C13.drop.in-flight-transfer-is-not-a-session-error] a transfer for an attached receiving link is never a session error, whether or not the application still holds the Receiver: dropping a link handle with deliveries in flight does not end the session
         r is Ok ==> r->Ok_0 is None,                                                    // [C02.session.no-immediate-disposition]
         forall|k: (Role, u32)| #![auto] k.0 == Role::Receiver ==> (final(self).delivery_tag_by_id@.contains_key(k) <==> old(self).delivery_tag_by_id@.contains_key(k))
             && (old(self).delivery_tag_by_id@.contains_key(k) ==> final(self).delivery_tag_by_id@[k] == old(self).delivery_tag_by_id@[k]),   // [C02.recv.sender-side-entries-untouched]
@@ -982,6 +984,7 @@ impl Session {
     ensures
         r == (SessionFrame { channel: old(self).outgoing_channel.0, body: SessionFrameBody::Detach(detach) }),   // [C13.link.detach-frame]
         final(self).link_name_by_output_handle@ == old(self).link_name_by_output_handle@.remove(detach.handle.0 as usize),   // [C13.link.handle-released-on-detach] the output handle is released exactly when the detach is sent
+        forall|i: int| 0 <= i < final(self).remote_incoming_window_exhausted_buffer@.len() ==> (#[trigger] final(self).remote_incoming_window_exhausted_buffer@[i]).1.handle != detach.handle,   // [C13.link.no-parked-transfer-after-detach] no transfer of this link that the session still holds back (the peer's incoming window was exhausted) may follow the detach onto the wire: once the detach is queued nothing for its handle is left to be written later
         final(self).link_by_input_handle == old(self).link_by_input_handle,
         final(self).same_outside_fc_core(old(self)),
 //@@ end
